@@ -144,6 +144,44 @@ pub fn served_take() -> Vec<([u8; 16], [u8; 16], u16, u16)> {
 }
 
 #[allow(clippy::type_complexity)]
+static SYNC_NEEDS: Mutex<Vec<([u8; 16], [u8; 16], Vec<(crate::actor::ActorId, Vec<crate::sync::SyncNeedV1>)>)>> =
+    Mutex::new(Vec::new());
+
+/// the sync client finished its handshake with one server and computed what to ask it for:
+/// (client, server, needs per origin actor)
+pub fn sync_needs_push(
+    client: [u8; 16],
+    server: [u8; 16],
+    needs: &std::collections::HashMap<crate::actor::ActorId, Vec<crate::sync::SyncNeedV1>>,
+) {
+    let v = needs.iter().map(|(a, n)| (*a, n.clone())).collect();
+    SYNC_NEEDS.lock().unwrap().push((client, server, v));
+}
+
+#[allow(clippy::type_complexity)]
+pub fn sync_needs_take() -> Vec<([u8; 16], [u8; 16], Vec<(crate::actor::ActorId, Vec<crate::sync::SyncNeedV1>)>)> {
+    std::mem::take(&mut *SYNC_NEEDS.lock().unwrap())
+}
+
+#[allow(clippy::type_complexity)]
+static SYNC_REQS: Mutex<Vec<([u8; 16], [u8; 16], Vec<(crate::actor::ActorId, Vec<crate::sync::SyncNeedV1>)>)>> =
+    Mutex::new(Vec::new());
+
+/// a request frame of a sync session as the server read it from the wire: (server, client, frame)
+pub fn sync_req_push(
+    server: [u8; 16],
+    client: [u8; 16],
+    req: &[(crate::actor::ActorId, Vec<crate::sync::SyncNeedV1>)],
+) {
+    SYNC_REQS.lock().unwrap().push((server, client, req.to_vec()));
+}
+
+#[allow(clippy::type_complexity)]
+pub fn sync_reqs_take() -> Vec<([u8; 16], [u8; 16], Vec<(crate::actor::ActorId, Vec<crate::sync::SyncNeedV1>)>)> {
+    std::mem::take(&mut *SYNC_REQS.lock().unwrap())
+}
+
+#[allow(clippy::type_complexity)]
 static UNI_SEEN: Mutex<Vec<(u16, u16, [u8; 16], u64)>> = Mutex::new(Vec::new());
 
 /// a broadcast frame reached a uni-stream handler: (cluster declared in the frame, cluster the
